@@ -297,6 +297,28 @@ struct Wide<double>
     static const char* name() { return "double"; }
 };
 
+template <>
+struct Wide<float>
+{
+    using type = float;
+    static bool ok(type v) { return !std::isnan(v); }
+    static const char* name() { return "float"; }
+};
+template <>
+struct Wide<int16_t>
+{
+    using type = int;
+    static bool ok(type v) { return v >= INT16_MIN && v <= INT16_MAX; }
+    static const char* name() { return "int16"; }
+};
+template <>
+struct Wide<int64_t>
+{
+    using type = __int128;
+    static bool ok(type v) { return v >= (__int128)INT64_MIN && v <= (__int128)INT64_MAX; }
+    static const char* name() { return "int64"; }
+};
+
 template <class T>
 static std::string vs(T v)
 {
@@ -348,8 +370,25 @@ static void grid(const std::vector<T>& g, const std::vector<T>& probes, LocalCou
                     }
                 }
                 lc.op("contains");
-                if (base.contains(e) != (a <= e && e <= b))
+                if (base.contains(e) != (a <= e && e <= b) || (base && e) != (a <= e && e <= b))
                     viol("contains:" + tn, bs + ".contains(" + vs(e) + ")");
+                lc.op("eq_elem");
+                if ((base == e) != (a == e && b == e))
+                    viol("eq_elem:" + tn, bs + "==" + vs(e));
+                {
+                    // the named members and the value-returning operators are the compound operators under another name
+                    auto same = [](const R& p, const R& q) { return (p.empty() && q.empty()) || (p.first() == q.first() && p.last() == q.last()); };
+                    R u = base, i = base, u2 = base, i2 = base;
+                    u |= e;
+                    i &= e;
+                    u2.add(e);
+                    i2.intersect(e);
+                    lc.op("aliases_elem");
+                    if (!same(u, base | e) || !same(u, base.unite(e)) || !same(u, u2))
+                        viol("alias_union_elem:" + tn, bs + " | " + vs(e));
+                    if (!same(i, base & e) || !same(i, base.intersection(e)) || !same(i, i2))
+                        viol("alias_inter_elem:" + tn, bs + " & " + vs(e));
+                }
                 {
                     R r = base;
                     r |= e;
@@ -516,8 +555,21 @@ static void grid(const std::vector<T>& g, const std::vector<T>& probes, LocalCou
                             viol("union:" + tn, ex);
                     }
                     lc.op("overlap");
-                    if ((base && y) != (std::max(a, c) <= std::min(b, d)))
+                    if ((base && y) != (std::max(a, c) <= std::min(b, d)) || base.intersects(y) != (base && y))
                         viol("overlap:" + tn, ex);
+                    {
+                        auto same = [](const R& p, const R& q) { return (p.empty() && q.empty()) || (p.first() == q.first() && p.last() == q.last()); };
+                        R u = base, i = base, u2 = base, i2 = base;
+                        u |= y;
+                        i &= y;
+                        u2.add(y);
+                        i2.intersect(y);
+                        lc.op("aliases");
+                        if (!same(u, base | y) || !same(u, base.unite(y)) || !same(u, u2))
+                            viol("alias_union:" + tn, ex);
+                        if (!same(i, base & y) || !same(i, base.intersection(y)) || !same(i, i2))
+                            viol("alias_inter:" + tn, ex);
+                    }
                     lc.op("eq");
                     if ((base == y) != (a == c && b == d))
                         viol("eq:" + tn, ex);
@@ -635,9 +687,9 @@ int main(int argc, char** argv)
         const double inf = std::numeric_limits<double>::infinity();
         const double lowest = std::numeric_limits<double>::lowest(), mx = std::numeric_limits<double>::max();
         const double dm = std::numeric_limits<double>::denorm_min();
-        std::vector<double> g{-inf, lowest, -1.0, -0.0, 0.0, dm, 1.0, mx, inf};
+        std::vector<double> g{-inf, lowest, -1.0, -0.0, 0.0, dm, 0.25, 0.75, 1.0, 1.5, mx, inf};
         if (tier == "thorough")
-            g = {-inf, lowest, -1e300, -2.0, -1.0, -dm, -0.0, 0.0, dm, 0.5, 1.0, 1.0 + 0x1p-52, 2.0, 1e300, mx, inf};
+            g = {-inf, lowest, -1e300, -2.0, -1.0, -0.5, -dm, -0.0, 0.0, dm, 0.25, 0.5, 0.75, 1.0, 1.0 + 0x1p-52, 1.5, 2.0, 1e300, mx, inf};
         std::vector<double> probes = g;
         for (double v : g) {
             if (v > -inf)
@@ -646,6 +698,31 @@ int main(int argc, char** argv)
                 probes.push_back(std::nextafter(v, inf));
         }
         grid<double>(g, probes, lc);
+    }
+    {
+        LocalCount lc;
+        const float inf = std::numeric_limits<float>::infinity();
+        const float lowest = std::numeric_limits<float>::lowest(), mx = std::numeric_limits<float>::max();
+        std::vector<float> g{-inf, lowest, -1.0f, -0.0f, 0.0f, std::numeric_limits<float>::denorm_min(), 0.25f, 0.75f, 1.0f, 1.5f, 16777216.0f, mx, inf};
+        std::vector<float> probes = g;
+        for (float v : g) {
+            if (v > -inf)
+                probes.push_back(std::nextafter(v, -inf));
+            if (v < inf)
+                probes.push_back(std::nextafter(v, inf));
+        }
+        grid<float>(g, probes, lc);
+    }
+    {
+        LocalCount lc;
+        std::vector<int16_t> g{INT16_MIN, INT16_MIN + 1, -256, -2, -1, 0, 1, 2, 255, 256, INT16_MAX - 1, INT16_MAX};
+        grid<int16_t>(g, g, lc);
+    }
+    {
+        LocalCount lc;
+        constexpr int64_t mn = INT64_MIN, mx = INT64_MAX;
+        std::vector<int64_t> g{mn, mn + 1, -4294967296LL, -2147483649LL, -2, -1, 0, 1, 2, 2147483648LL, 4294967295LL, 4294967296LL, mx - 1, mx};
+        grid<int64_t>(g, g, lc);
     }
     // --- report
     printf("{\"evaluations\": %" PRIu64 ", \"skipped_overflow\": %" PRIu64 ", \"int8_intervals\": %zu, \"int8_pairs\": %zu, ",
